@@ -18,6 +18,9 @@ for d in glob.glob('/root/scratch/mut-out/C*-out/m[12]'):
     pid = os.path.basename(os.path.dirname(d))[:3]; src[f"{pid}-{os.path.basename(d)}"] = d
 for d in glob.glob('/root/scratch/mut2-out/C*-out/m[12]'):
     pid = os.path.basename(os.path.dirname(d))[:3]; src[f"{pid}-r2{os.path.basename(d)}"] = d
+for r in (3, 4, 5):
+    for d in glob.glob(f'/root/scratch/mut{r}-out/C*-out/m[12]'):
+        pid = os.path.basename(os.path.dirname(d))[:3]; src[f"{pid}-r{r}{os.path.basename(d)}"] = d
 root = '/verif/seeded'
 os.makedirs(root, exist_ok=True)
 kept = 0
